@@ -24,7 +24,7 @@ func init() {
 	})
 }
 
-var c07Points = []string{"idle", "partial_head", "in_reqmod", "origin_holds", "in_resmod", "write_blocked", "at_handler_entry"}
+var c07Points = []string{"idle", "partial_head", "in_reqmod", "origin_holds", "in_resmod", "write_blocked", "at_handler_entry", "connect_in_reqmod"}
 
 type c07Conn struct {
 	idx    int
@@ -96,8 +96,16 @@ func runC07(k *kernel.K) {
 	holdOrigin := map[int]bool{}
 	parkReq := map[int]bool{}
 	parkRes := map[int]bool{}
+	idOf := func(req *http.Request) int {
+		if req.Method == "CONNECT" {
+			var port int
+			fmt.Sscanf(req.URL.Host, "void.test:%d", &port)
+			return port - 7000
+		}
+		return exchangeID(req.URL.Path)
+	}
 	proxy.SetRequestModifier(martian.RequestModifierFunc(func(req *http.Request) error {
-		id := exchangeID(req.URL.Path)
+		id := idOf(req)
 		mu.Lock()
 		c := byID[id]
 		if c != nil {
@@ -116,7 +124,7 @@ func runC07(k *kernel.K) {
 		return nil
 	}))
 	proxy.SetResponseModifier(martian.ResponseModifierFunc(func(res *http.Response) error {
-		id := exchangeID(res.Request.URL.Path)
+		id := idOf(res.Request)
 		mu.Lock()
 		c := byID[id]
 		if c != nil {
@@ -160,7 +168,7 @@ func runC07(k *kernel.K) {
 
 	acceptIdx := 0
 	for ci := 0; ci < nconn; ci++ {
-		c := &c07Conn{idx: ci, point: c07Points[w.Pick([]int{2, 2, 3, 3, 3, 3, 2})], reqEnter: -1, reqRet: -1, resEnter: -1, resRet: -1}
+		c := &c07Conn{idx: ci, point: c07Points[w.Pick([]int{2, 2, 3, 3, 3, 3, 2, 1})], reqEnter: -1, reqRet: -1, resEnter: -1, resRet: -1}
 		c.client = NewClient(k, l, fmt.Sprintf("cl%d", ci), fmt.Sprintf("10.1.0.%d", ci+2))
 		myAccept := acceptIdx
 		acceptIdx++
@@ -195,6 +203,13 @@ func runC07(k *kernel.K) {
 			c.client.Add(c.spec)
 		case "at_handler_entry":
 			yieldPark[myAccept] = true
+			c.client.Add(c.spec)
+		case "connect_in_reqmod":
+			// a CONNECT to a target nobody listens on, parked in its request modifier: the exchange
+			// is answered with a 502 by the proxy itself
+			c.spec = &ReqSpec{ID: c.id, Method: "CONNECT", Host: fmt.Sprintf("void.test:%d", 7000+c.id), Path: fmt.Sprintf("void.test:%d", 7000+c.id)}
+			c.resp = &RespSpec{Status: 502, Framing: "cl"}
+			parkReq[c.id] = true
 			c.client.Add(c.spec)
 		}
 		conns = append(conns, c)
@@ -415,7 +430,12 @@ func runC07(k *kernel.K) {
 		if enteredAtClose[c.idx] {
 			k.Probe("entered_before_close_" + c.point)
 		}
-		if len(fin) != 1 || !respMatches(fin[0], c.resp, c.spec.Method) {
+		if c.point == "connect_in_reqmod" {
+			if len(fin) != 1 || fin[0].Status != 502 || !fin[0].Complete {
+				k.Fail("C07.inflight_completes", map[string]string{"park_point": c.point}, "%s: the CONNECT to an unreachable target had entered its request modifier but the client did not receive a complete 502 (%d responses)", desc, len(fin))
+				continue
+			}
+		} else if len(fin) != 1 || !respMatches(fin[0], c.resp, c.spec.Method) {
 			got := "none"
 			if len(fin) > 0 {
 				got = fmt.Sprintf("status %d, %d of %d body bytes, complete=%v", fin[0].Status, len(fin[0].Body), len(c.resp.Body), fin[0].Complete)
